@@ -83,13 +83,13 @@ func gen(t *rapid.T) Case {
 				c.Src, c.Dst = g, p
 			}
 		} else {
-			c.Dst = projkit.GenDef(t, projkit.Opts{OnlyDatum: true})
+			c.Dst = projkit.GenDef(t, projkit.Opts{OnlyDatum: true, WithAxis: true})
 			c.Lon, c.Lat = projkit.GenPosition(t, c.Dst)
-			c.Src = projkit.GenDefFor(t, projkit.Opts{OnlyDatum: true, Projs: projkit.AllProjs}, c.Lon, c.Lat)
+			c.Src = projkit.GenDefFor(t, projkit.Opts{OnlyDatum: true, WithAxis: true, Projs: projkit.AllProjs}, c.Lon, c.Lat)
 		}
 		// the input in source coordinates is obtained from the WGS84 position with the code under test (it only has to
 		// be a point of the region; both implementations then get the same numbers)
-		if c.Src.Proj == "longlat" {
+		if c.Src.Proj == "longlat" && (c.Src.Axis == "" || c.Src.Axis == "enu") {
 			c.X, c.Y = c.Lon-c.Src.PMDegrees(), c.Lat
 		} else {
 			via := wgs84Geo
